@@ -15,3 +15,7 @@ def run(ctx):
     n1, n2 = roots.sign_and_ctx_rules(rep, F, fns, sink_pat=r'inverse::impl_inverse_uint_scale$')
     rep.floor('PROV-CTX final sinks', n1, 2)
     rep.floor('R-SIGN instances', n2, 3)
+    if ctx.tier == 'thorough':
+        from rules import witness
+        nw = witness.run(rep, r'^W1')
+        rep.floor('type-level witnesses', nw, 1)
